@@ -107,6 +107,7 @@ BoxesAll == {B(L(-2, -2), L(1, 1)), B(L(0, 0), L(2, 2)), B(L(0, -1), L(9, 1)), U
 BoxesFew == {B(L(-2, -2), L(1, 1)), B(L(0, -1), L(9, 1)), UBox, B(L(1, 1), L(0, -2))}
 BoxListsAll == {<<>>, <<B(L(0, 0), L(2, 2))>>, <<UBox, B(L(0, -1), L(9, 1)), B(L(-2, -2), L(1, 1))>>}
 KeysAll == {"generator", "a", ""}
+KeysFew == {"generator", ""}
 ValuesAll == {<<"v">>, VTrue, <<"yes">>, VFalse, <<"no">>, <<>>}
 ValuesFew == {<<"v">>, <<"yes">>, <<"no">>}
 DataAll == {[k |-> "generator", eq |-> TRUE, v |-> <<"x=y">>], [k |-> "a", eq |-> FALSE, v |-> <<>>], [k |-> "a", eq |-> TRUE, v |-> <<>>],
